@@ -70,6 +70,7 @@ type op struct {
 	Row   []interface{} `json:"-"`
 	RowID []int
 	Img   string
+	Want  string // getval in a read-only scenario: the value every read must return
 }
 
 type fail struct {
@@ -223,6 +224,7 @@ type scenario struct {
 	progs  [][]op
 	prep   func(f *xl.File) error
 	reopen bool
+	opts   xl.Options // options for the reopened workbook
 	// lockstep: all goroutines start their i-th operation together (maximal overlap of one
 	// operation kind; every program has the same length)
 	lockstep bool
@@ -241,6 +243,10 @@ func uniquePNG(seed uint64, t, i int) string {
 	p := filepath.Join(os.TempDir(), fmt.Sprintf("c15-%d-%d-%d.png", seed, t, i))
 	_ = os.WriteFile(p, buf.Bytes(), 0o644)
 	return p
+}
+
+func spillText(sheet string, k int) string {
+	return fmt.Sprintf("%s-string-%d-%s", sheet, k, strings.Repeat("s", 30))
 }
 
 func imgPath(name string) string {
@@ -283,6 +289,10 @@ func buildScenario(kind string, r *rng, tier string) *scenario {
 	if kind == "w-row" {
 		sc.g, nops = 4, 1
 		sc.sheets = []string{"Sheet1"}
+	}
+	if kind == "spill" {
+		sc.g, nops, sc.procs, sc.lockstep = 4+r.intn(5), 60, 8, true
+		sc.sheets = []string{"Sheet1", "Data2"}
 	}
 	if kind == "w-media" {
 		sc.g, nops, sc.procs, sc.lockstep = 8+r.intn(5), 10, 8, true
@@ -354,6 +364,8 @@ func buildScenario(kind string, r *rng, tier string) *scenario {
 				kindSel = pickW(w, "colstyle", 40, "setval", 60)
 			case "w-row": // witness: one long SetSheetRow per goroutine on the same row, started together
 				kindSel = "sheetrow"
+			case "spill": // witness: read-only; shared strings spilled to a temp file (UnzipXMLSizeLimit)
+				kindSel = "getval"
 			case "w-media": // witness: every goroutine adds images nobody else has to its own, prepared sheet
 				kindSel = "addpic"
 			case "w-ctypes": // witness: first AddPicture calls on a reopened workbook (lazy content-types decode)
@@ -411,6 +423,12 @@ func buildScenario(kind string, r *rng, tier string) *scenario {
 				}
 				prog = append(prog, o)
 			case "getval":
+				if kind == "spill" {
+					k := r.intn(300)
+					sh := sc.sheets[t%len(sc.sheets)]
+					prog = append(prog, op{Fn: "GetCellValue", Kind: "getval", Sheet: sh, Cell: cellName(k), Want: spillText(sh, k)})
+					break
+				}
 				prog = append(prog, op{Fn: "GetCellValue", Kind: "getval", Sheet: sheet, Cell: cell})
 			case "getstyle":
 				prog = append(prog, op{Fn: "GetCellStyle", Kind: "getstyle", Sheet: sheet, Cell: cell})
@@ -564,6 +582,19 @@ func buildScenario(kind string, r *rng, tier string) *scenario {
 			}
 			return nil
 		}
+	case "spill":
+		sc.reopen = true
+		sc.opts = xl.Options{UnzipXMLSizeLimit: 2048}
+		sc.prep = func(f *xl.File) error {
+			for _, sh := range sc.sheets {
+				for k := 0; k < 300; k++ {
+					if err := f.SetCellValue(sh, cellName(k), spillText(sh, k)); err != nil {
+						return err
+					}
+				}
+			}
+			return nil
+		}
 	case "w-ctypes":
 		sc.reopen = true
 	case "reopen":
@@ -635,6 +666,7 @@ func (b *roundBarrier) wait(round int) {
 type opResult struct {
 	err   string
 	panic string
+	wrong string // a read returned this instead of op.Want
 	id    int // NewStyle result
 }
 
@@ -664,7 +696,11 @@ func runOp(f *xl.File, o *op, styleIDs []int) (res opResult) {
 			}
 		}
 	case "getval":
-		_, err = f.GetCellValue(o.Sheet, o.Cell)
+		var v string
+		v, err = f.GetCellValue(o.Sheet, o.Cell)
+		if err == nil && o.Want != "" && v != o.Want {
+			res.wrong = v
+		}
 	case "getstyle":
 		_, err = f.GetCellStyle(o.Sheet, o.Cell)
 	case "newstyle":
@@ -782,7 +818,7 @@ func runScenario(idx int, kind string, seed uint64, tier string) *result {
 			addFail("setup", err.Error())
 		}
 		f.Close()
-		g, err := xl.OpenReader(bytes.NewReader(buf.Bytes()))
+		g, err := xl.OpenReader(bytes.NewReader(buf.Bytes()), sc.opts)
 		if err != nil {
 			addFail("setup", err.Error())
 			return res
@@ -888,6 +924,12 @@ wait:
 			res.Fns[o.Fn]++
 			if o.VDesc != "" {
 				res.Payloads[o.VDesc]++
+			}
+			if kind == "spill" && (rs.err != "" || rs.panic != "" || rs.wrong != "") {
+				// read-only scenario: the only shared mutable state the readers touch is the lazily
+				// built index of the spilled shared-string table
+				addFail("spill:GetCellValue-wrong-result", fmt.Sprintf("GetCellValue(%s,%s) on a workbook whose shared strings are spilled to a temp file: want %q, got %q (error %q, panic %q)", o.Sheet, o.Cell, o.Want, rs.wrong, rs.err, rs.panic))
+				continue
 			}
 			if rs.panic != "" {
 				addFail("panic:"+o.Fn, fmt.Sprintf("%s(%s,%s) panicked: %s", o.Fn, o.Sheet, o.Cell, rs.panic))
@@ -1277,7 +1319,7 @@ var kinds = []string{"cells", "styles", "cols", "dviter", "pictures", "reopen", 
 
 // witness scenarios run first on every run: each hammers one pair of functions for which the
 // model predicts (or predicted, before a fix) unsynchronised access
-var witnessKinds = []string{"w-time", "w-fmt", "w-setstyle", "w-colstyle", "formulas", "reopen", "w-getpic", "w-row", "w-ctypes", "w-media"}
+var witnessKinds = []string{"w-time", "w-fmt", "w-setstyle", "w-colstyle", "formulas", "reopen", "w-getpic", "w-row", "w-ctypes", "w-media", "spill"}
 
 func main() {
 	seed := flag.Uint64("seed", 1, "")
@@ -1289,7 +1331,7 @@ func main() {
 	flag.Parse()
 	total := *n
 	if total == 0 {
-		total = 52
+		total = 54
 		if *tier == "thorough" {
 			total = 400
 		}
